@@ -1,6 +1,7 @@
 package sim
 
 import (
+	"sync"
 	"database/sql"
 	"errors"
 	"fmt"
@@ -65,6 +66,13 @@ func StoreSimConfig(prop string, r *Rand, tier string) map[string]int64 {
 			// what is served after a failed and retried block must verify as well (the atomicity itself is C07's)
 			c["w_fault"] = int64(r.Range(3, 12))
 		}
+		// several syncers write their trees at the same time in the real node (L1 bridge, L2 bridge, L1 info): a
+		// second real store of the other tree-owning kind is fed concurrently in some ops
+		c["companion"] = 0
+		if r.Bool(40) {
+			c["companion"] = 1
+			c["w_par"] = int64(r.Range(3, 10))
+		}
 		c["heavy"] = 1
 		c["proofs_only"] = 1 // C08 reports proof / leaf / root oracles only (twin equality is C04's)
 		c["kind"] = int64(r.Intn(2)) // the two stores that own trees
@@ -91,11 +99,28 @@ func RunStoreSim(prop string, tr *Trace, sc *Script, rec *Recorder, scratch stri
 	defer w.close()
 	defer DisarmAllFaults()
 	heavy := cfg["heavy"] == 1
+	var w2 *storeWorld
+	if cfg["companion"] == 1 {
+		other := "l1info"
+		if kind == "l1info" {
+			other = "bridge"
+		}
+		dir2 := filepath.Join(dir, "companion")
+		os.MkdirAll(dir2, 0o755)
+		w2, err = newStoreWorld(other, dir2, cfg, rec, tr.Seed^0x5a5a)
+		if err != nil {
+			return &Violation{Oracle: "harness", Detail: "open companion: " + err.Error()}
+		}
+		defer w2.close()
+	}
 
 	gen := func(r *Rand) (Op, bool) {
-		weights := []int{int(cfg["w_block"]), int(cfg["w_reorg"]), int(cfg["w_restart"]), int(cfg["w_check"]), int(cfg["w_fault"])}
+		weights := []int{int(cfg["w_block"]), int(cfg["w_reorg"]), int(cfg["w_restart"]), int(cfg["w_check"]), int(cfg["w_fault"]), int(cfg["w_par"])}
 		if len(w.blocks()) == 0 {
 			weights[1] = 0
+		}
+		if w2 == nil {
+			weights[5] = 0
 		}
 		switch r.Pick(weights) {
 		case 0:
@@ -116,6 +141,8 @@ func RunStoreSim(prop string, tr *Trace, sc *Script, rec *Recorder, scratch stri
 			return Op{K: "restart"}, true
 		case 3:
 			return Op{K: "check"}, true
+		case 5:
+			return Op{K: "par", A: []int64{int64(r.U64() >> 1), int64(r.U64() >> 1), int64(r.Range(15, 50))}}, true
 		case 4:
 			mode := []int64{0, 0, 0, 1, 2, 3, 3, 4, 4, 5, 6}[r.Intn(11)]
 			return Op{K: "faultblock", A: []int64{int64(r.U64() >> 1), int64(r.Intn(int(cfg["max_gap"]) + 1)), mode, int64(1 + r.Intn(90)), int64(r.Intn(3))}}, true
@@ -208,6 +235,51 @@ func RunStoreSim(prop string, tr *Trace, sc *Script, rec *Recorder, scratch stri
 				return v
 			}
 			rec.Step("C")
+		case "par":
+			if w2 == nil {
+				continue
+			}
+			// n blocks for each of the two stores, processed by two goroutines at the same time (as the node's
+			// syncers do); every store is then checked against its own reference
+			n := int(op.Arg(2))
+			ra, rb := NewRand(uint64(op.Arg(0))), NewRand(uint64(op.Arg(1)))
+			var la, lb []MBlock
+			for i := 0; i < n; i++ {
+				b := w.genBlock(ra.U64(), 0, false)
+				w.applyModel(b)
+				la = append(la, b)
+				b2 := w2.genBlock(rb.U64(), 0, false)
+				w2.applyModel(b2)
+				lb = append(lb, b2)
+			}
+			var wg sync.WaitGroup
+			var ea, eb error
+			wg.Add(2)
+			go func() {
+				defer wg.Done()
+				for _, b := range la {
+					if ea = w.store.ProcessBlock(b); ea != nil {
+						return
+					}
+				}
+			}()
+			go func() {
+				defer wg.Done()
+				for _, b := range lb {
+					if eb = w2.store.ProcessBlock(b); eb != nil {
+						return
+					}
+				}
+			}()
+			wg.Wait()
+			if ea != nil || eb != nil {
+				return fail("process", "process-error", "fault-free ProcessBlock failed while two stores were written at the same time: %v / %v", ea, eb)
+			}
+			if err := w2.checkRef(heavy); err != nil {
+				return &Violation{Oracle: "reference", Sig: w2.kind + "/reference", Detail: "companion store after concurrent writes: " + err.Error()}
+			}
+			rec.Stats.Inc("concurrent_write_ops")
+			rec.Step(fmt.Sprintf("P%d", n))
 		case "faultblock":
 			if v := w.faultBlock(op, fail); v != nil {
 				if prop == "C08" && v.Oracle != "reference" {
